@@ -3,10 +3,12 @@ import random
 import tracegen
 import framework as fw
 import loader_common as lc
+import translate
 
 ID = "C02"
 COQ_IMPORTS = lc.COQ_IMPORTS
 SOURCES = lc.SOURCES
+TRANSLATE = [translate.gen_link_rules]
 N_CASES = {"quick": 300, "thorough": 5000}
 RULE = ("generated well-formed file sets (1-3 ranks): launches without kernel, kernels without launch (with and without a correlation id), runtime calls that "
         "carry an id but launch nothing, synchronisation calls with a 'Context Sync' (stream -1) or 'Stream Sync' event sharing their id, shuffled file order; "
@@ -152,7 +154,8 @@ def classify(case, impl, model, disc):
 LEVEL_TEXT = ("Proof: C02_link_mutual (unique opposite-side event with the same id => mutual link), C02_link_sentinel (-1 without id, 0 without counterpart), "
               "C02_never_other_id_or_same_side (no hypothesis: a positive link always names an opposite-side event with the same id), C02_trichotomy; "
               "for every frame. Correspondence on index_correlation of every row after parse_traces() and load_traces(); the specification is also "
-              "evaluated directly on the implementation's column.")
+              "evaluated directly on the implementation's column."
+              " C02_rules_follow_source / C02_alignment_follows_source: fallback value, id test and alignment shift are regenerated from transform_correlation_to_index and Trace._align_all_ranks on every run.")
 LEVEL_NOTE = ("Hand model of transform_correlation_to_index and of the host/device side rule of trace_filter (incl. 'Event Sync'/'Context Sync' by name). "
               "Ill-formed traces (an id twice on one side: pandas last-write-wins) are outside the quantifier.")
 TECHNIQUE = "Coq proof over a Gallina model of the correlation linking (find-based, uniqueness hypothesis) + differential correspondence via vm_compute"
